@@ -13,6 +13,8 @@ def fmt_observe(name, v):
 
 def fmt_go_v(v):
     if isinstance(v, Iface):
+        if v.tid.endswith("go-ethereum/common.Hash") and isinstance(v.val, tuple) and all(type(b) is int for b in v.val):
+            return "0x" + bytes(v.val).hex()
         v = v.val
     if isinstance(v, bool):
         return "true" if v else "false"
@@ -36,6 +38,11 @@ def zz_param(eng, st, fr, args, ins):
 
 
 def install(eng):
+    import sqlmodel
+    sqlmodel.install(eng)
+    C = "github.com/ethereum/go-ethereum/common."
+    for nm, v in (("Big0", 0), ("Big1", 1), ("Big2", 2), ("Big3", 3), ("Big32", 32), ("Big256", 256), ("Big257", 257)):
+        eng.external_globals[C + nm] = (lambda v: (lambda e, st: intrinsics.big_new(e, st, v)))(v)
     eng.intrinsics.update(REG)
 
 
@@ -120,3 +127,126 @@ def structtag_lookup(eng, st, fr, args, ins):
         if m.group(1) == key:
             return (m.group(2), True)
     return ("", False)
+
+
+# ------------------------------------------------------------------------------------ context
+CTX_T = "*zzverif.ctx"
+
+
+def _new_ctx(eng, st, parent):
+    p = eng.alloc_val(st, "zz:ctx", (False, parent))
+    return Iface(CTX_T, p)
+
+
+def ctx_cancelled(eng, st, ctx):
+    if ctx is None or not isinstance(ctx, Iface) or ctx.tid != CTX_T:
+        return False
+    c, parent = eng.load(st, ctx.val)
+    if c:
+        return True
+    return ctx_cancelled(eng, st, parent) if parent is not None else False
+
+
+@intr("context.Background", "context.TODO")
+def ctx_background(eng, st, fr, args, ins):
+    return _new_ctx(eng, st, None)
+
+
+@intr("context.WithCancel")
+def ctx_withcancel(eng, st, fr, args, ins):
+    c = _new_ctx(eng, st, args[0])
+    return (c, Closure("zzverif.cancelctx", (c.val,)))
+
+
+@intr("context.WithTimeout", "context.WithDeadline")
+def ctx_withtimeout(eng, st, fr, args, ins):
+    c = _new_ctx(eng, st, args[0])
+    return (c, Closure("zzverif.cancelctx", (c.val,)))
+
+
+@intr("context.WithValue")
+def ctx_withvalue(eng, st, fr, args, ins):
+    return _new_ctx(eng, st, args[0])
+
+
+@intr("zzverif.cancelctx")
+def ctx_cancel(eng, st, fr, args, ins):
+    p = eng.current_binds[0]
+    c, parent = eng.load(st, p)
+    eng.store(st, p, (True, parent))
+    return None
+
+
+@intr("(" + CTX_T + ").Err")
+def ctx_err(eng, st, fr, args, ins):
+    ctx = Iface(CTX_T, args[0])
+    if ctx_cancelled(eng, st, ctx):
+        return eng.load(st, eng.global_ptr(st, "context.Canceled"))
+    return None
+
+
+@intr("(" + CTX_T + ").Value")
+def ctx_value(eng, st, fr, args, ins):
+    return None
+
+
+@intr("(" + CTX_T + ").Done")
+def ctx_done(eng, st, fr, args, ins):
+    from symex import GoChan, ChanRef, st_oid
+    ctx = Iface(CTX_T, args[0])
+    oid = st_oid(st)
+    st.heap[oid] = GoChan((), 0, ctx_cancelled(eng, st, ctx))
+    eng.objtype[oid] = "chan struct{}"
+    if "chan struct{}" not in eng.ir.types:
+        eng.ir.types["chan struct{}"] = {"k": "chan", "elem": "struct{}"}
+        eng.ir.types.setdefault("struct{}", {"k": "struct", "fields": []})
+    return ChanRef(oid)
+
+
+# ------------------------------------------------------------------------------------ db helpers using reflection
+@intr("github.com/agglayer/aggkit/db.SlicePtrsToSlice")
+def slice_ptrs_to_slice(eng, st, fr, args, ins):
+    x = args[0]
+    su = eng.ir.under(x.tid)
+    et = eng.ir.under(su["elem"])["elem"]
+    elems = tuple(eng.load(st, p) for p in eng.slice_elems(st, x.val))
+    tid = "[]" + et
+    if tid not in eng.ir.types:
+        eng.ir.types[tid] = {"k": "slice", "elem": et}
+    return Iface(tid, eng.new_slice(st, et, elems))
+
+
+@intr("github.com/agglayer/aggkit/db.SliceToSlicePtrs")
+def slice_to_slice_ptrs(eng, st, fr, args, ins):
+    x = args[0]
+    su = eng.ir.under(x.tid)
+    et = su["elem"]
+    s = x.val
+    ptrs = tuple(Ptr(s.arr.obj, s.arr.path + (s.off + i,)) for i in range(s.len)) if s is not None and s.arr is not None else ()
+    pt = "*" + et
+    if pt not in eng.ir.types:
+        eng.ir.types[pt] = {"k": "ptr", "elem": et}
+    tid = "[]" + pt
+    if tid not in eng.ir.types:
+        eng.ir.types[tid] = {"k": "slice", "elem": pt}
+    return Iface(tid, eng.new_slice(st, pt, ptrs))
+
+
+@intr(ZZ + "TempDB")
+def zz_tempdb(eng, st, fr, args, ins):
+    k = st.counters.get("__tempdb", 0)
+    st.counters["__tempdb"] = k + 1
+    return "zzdb%d/%s.sqlite" % (k, args[0])
+
+
+@intr(ZZ + "Note")
+def zz_note(eng, st, fr, args, ins):
+    import os
+    if os.environ.get("VERIF_DEBUG"):
+        v = args[1]
+        if isinstance(v, Iface) and v.tid in ("*errors.errorString", "*fmt.wrapError"):
+            v = intrinsics.err_message(eng, st, v)
+        elif isinstance(v, Iface) and v.tid == "*github.com/russross/meddler.dbErr":
+            v = ("dbErr", eng.load(st, v.val))
+        print("NOTE", args[0], v)
+    return None
